@@ -23,12 +23,32 @@ extern "C" const char* __asan_default_options()
 {
     return "abort_on_error=1:detect_leaks=0:allocator_may_return_null=1:handle_abort=0:"
            "detect_stack_use_after_return=0:max_malloc_fill_size=0:malloc_context_size=8:"
-           "detect_container_overflow=1:print_summary=1:symbolize=1";
+           "detect_container_overflow=1:print_summary=1:symbolize=1:max_allocation_size_mb=4096:alloc_dealloc_mismatch=0";
 }
 extern "C" const char* __ubsan_default_options()
 {
     return "print_stacktrace=1:abort_on_error=1:halt_on_error=1:symbolize=1";
 }
+
+#if defined(__SANITIZE_ADDRESS__)
+// Under ASan `operator new` of an absurd size aborts the process instead of throwing, which the real allocator never does.
+// The harness therefore provides operator new on top of (ASan's) malloc: redzones and use-after-free detection are kept,
+// and an allocation that cannot be satisfied (> max_allocation_size_mb) throws std::bad_alloc exactly like glibc.
+#include <new>
+void* operator new(std::size_t n)
+{
+    void* p = malloc(n ? n : 1);
+    if (!p) throw std::bad_alloc();
+    return p;
+}
+void* operator new[](std::size_t n) { return operator new(n); }
+void* operator new(std::size_t n, const std::nothrow_t&) noexcept { return malloc(n ? n : 1); }
+void* operator new[](std::size_t n, const std::nothrow_t&) noexcept { return malloc(n ? n : 1); }
+void operator delete(void* p) noexcept { free(p); }
+void operator delete[](void* p) noexcept { free(p); }
+void operator delete(void* p, std::size_t) noexcept { free(p); }
+void operator delete[](void* p, std::size_t) noexcept { free(p); }
+#endif
 
 namespace vx
 {
@@ -168,6 +188,13 @@ const char* build_variant()
 #else
     return "opt";
 #endif
+}
+
+int g_substep_timeout_s = 20;
+void Sub::at(int64_t k)
+{
+    slot->store(k, std::memory_order_relaxed);
+    if (g_substep_timeout_s > 0) alarm((unsigned)g_substep_timeout_s);
 }
 
 // ---------------------------------------------------------------------------
